@@ -20,7 +20,8 @@ func init() {
 		ruleC12)
 	register("C09", "Clause decided: malformed string keys cannot cause an index-out-of-range panic in the calendar shards: every slice expression on the key string (and on time.Format output) in DateYearShard.getNumYear, DateMonthShard.getNumYearMonth and DateDayShard.getNumYearMonthDay is proven in bounds from dominating length tests (BD-C09), and the three sibling parsers all guard their string case. Interval/period arithmetic, equal placement of the accepted spellings and time zones are not covered.",
 		ruleC09)
-	propArch386["C12"] = true
+	// no GOARCH=386 pass: package mysql itself does not type-check on 32-bit targets (SQLMode constants overflow int),
+	// so 32-bit is not a build target of this repository
 	register("C33", "", ruleC33bd)
 }
 
